@@ -318,6 +318,7 @@ func checkC08(c *Ctx) {
 	c.Rule("C08.R2", "in the NewTransform closure every stage is undone by its mirror: ToMeter multiplies on the source side and divides on the destination side, FromGreenwich is added/subtracted, geographic systems scale by deg2rad/r2d (product 1), the source uses the inverse and the destination the forward member of Transformers(), adjust_axis gets denorm=false/true; stages come in mirrored order around the datum shift")
 	c.Rule("C08.R3", "each of longlat, merc, lcc, aea, eqdc, tmerc, utm, krovak is registered and its constructor yields a forward and an inverse closure")
 	c.Rule("C08.R4", "in every registered inverse closure other than the identity, the first result (longitude) depends on the central-meridian field and the second (latitude) does not")
+	c.Rule("C08.R5", "conic family (inverse of the form lon = atan2(…)/N + λ0 with N a captured cone constant): the polar angle is taken of sign-corrected coordinates, atan2(s·x, s·y) with s = ±1 following the sign of N, in every member")
 	p := c.P.Pkg("proj")
 	if p == nil {
 		c.Unk("C08.R1", "proj", token.NoPos, "package not loaded")
@@ -357,6 +358,8 @@ func checkC08(c *Ctx) {
 		}
 	}
 	c08mirror(c)
+	c08conic(c)
+	c.Floor("C08.R5", 3)
 	c.Floor("C08.R1", 14)
 	c.Floor("C08.R2", 5)
 	c.Floor("C08.R3", 8)
